@@ -298,6 +298,49 @@ def run_case(case, ctx, st):
                 ctx.violation("missing-matrix", f"missing-precomputed-matrix-accepted/{name}", observed="fit returned", expected="error")
         except Exception:
             ctx.count("missing_precomputed_refused")
+    # hyperparameters changed after the fit: score speaks about "the GEMINI, OvA/OvO mode and affinity its parameters
+    # describe" - the parameters in force when score is called
+    if name in gen.MMD_VARIANTS + gen.WASS_VARIANTS + gen.GENERIC and not use_path and i % 3 != 0:
+        newp = {}
+        if name in gen.MMD_VARIANTS:
+            ks = [k for k in gen.KERNELS if (nonneg or k not in ("chi2", "additive_chi2")) and k != params.get("kernel")]
+            newp["kernel"] = ks[int(rng.integers(0, len(ks)))]
+            newp["kernel_params"] = gen.kernel_params(rng, newp["kernel"]) or None
+            newp["ovo"] = bool(rng.random() < 0.5)
+        elif name in gen.WASS_VARIANTS:
+            ms = [m for m in gen.METRICS if m != params.get("metric")]
+            newp["metric"] = ms[int(rng.integers(0, len(ms)))]
+            newp["metric_params"] = gen.metric_params(rng, newp["metric"]) or None
+            newp["ovo"] = bool(rng.random() < 0.5)
+        else:
+            newp["gemini"] = gen.random_gemini_desc(rng, allow_precomputed=False, nonneg=nonneg, allow_callable=False) \
+                if rng.random() < 0.6 else gen.GEMINI_NAMES[int(rng.integers(0, 13))]
+        params2 = dict(params, **newp)
+        try:
+            est.set_params(**{k: (gen.gemini_from_desc(v) if k == "gemini" and isinstance(v, dict) else v) for k, v in newp.items()})
+            st.reset(est)
+            with warnings.catch_warnings():
+                warnings.simplefilter("ignore")
+                est.score(X)
+            evs = list(st.evals)
+        except Exception as e:
+            ctx.count("score_after_set_params_raised:" + type(e).__name__)
+            evs = []
+        if evs:
+            dist2, ovo2, spec2 = gen.expected_objective(name, params2)
+            want2 = gen.expected_affinity(spec2, X, None)
+            ctx.count("score_after_set_params_checked")
+            cname, covo, A_, _, _ = evs[-1]
+            if CLASS_DISTANCE.get(cname) != dist2 or covo != ovo2 or not same(A_, want2):
+                ctx.violation("score-follows-parameters", f"score-ignores-parameters-changed-after-fit/{name}",
+                              observed={"class": cname, "ovo": covo, "changed": newp, "affinity_as_described": bool(same(A_, want2))},
+                              expected={"distance": dist2, "ovo": ovo2})
+        # put the configuration back for what follows
+        try:
+            est.set_params(**{k: (gen.gemini_from_desc(params[k]) if k == "gemini" and isinstance(params.get(k), dict) else params.get(k, None if k.endswith("_params") else False))
+                              for k in newp})
+        except Exception:
+            pass
     # the same object (and a clone of it) on data of another width: "the kernel named by its hyperparameters evaluated with
     # the given parameters" - what a parameter dictionary leaves out takes scikit-learn's default for THIS data
     if name != "Kauri" and pre is None and not use_path and not params.get("groups") and params.get("feature_mask") is None \
